@@ -3,6 +3,7 @@ pub mod client_sm;
 pub mod decode;
 pub mod framing;
 pub mod server_family;
+pub mod sessions;
 pub mod tls;
 
 pub fn run(id: &str, tier: &str) -> i32 {
@@ -21,6 +22,7 @@ pub fn run(id: &str, tier: &str) -> i32 {
         "C12" => client_sm::check_c12(tier),
         "C13" => client_sm::check_c13(tier),
         "C14" => client_sm::check_c14(tier),
+        "C15" => sessions::check_c15(tier),
         "C17" => server_family::check_c17(tier),
         "C20" => decode::check_c20(tier),
         _ => {
@@ -63,6 +65,7 @@ pub fn replay(path: &str) -> i32 {
         Some("c14-pure") => client_sm::replay_c14_pure(scn),
         Some("c20-client") | Some("c20-server") | Some("c20-stream") => decode::replay_c20(scn),
         Some("c09") | Some("c09-probe") => tls::replay_c09(scn),
+        Some("c15") => sessions::replay_c15(scn),
         Some("client-sm") => client_sm::replay(scn),
         Some("client-stream") => framing::replay_client_stream(scn),
         k => {
